@@ -81,7 +81,8 @@ fn leaf(d: &mut Draw, w: usize, cx: &Ctx) -> Expr {
     ]);
     match k {
         0 => {
-            let lo = d.below_usize(8 - w + 1);
+            let span = if w <= 8 && d.bool() { 8 } else { 200 };
+            let lo = d.below_usize(span - w + 1);
             Expr::D(lo + w - 1, lo)
         }
         1 => Expr::K(w, d.below(256) as u64),
@@ -100,7 +101,15 @@ fn leaf(d: &mut Draw, w: usize, cx: &Ctx) -> Expr {
             if uw == w && d.bool() {
                 Expr::Rd(unit)
             } else if uw >= w {
-                let off = d.below_usize(uw - w + 1);
+                // reads of a wide variable prefer slices that touch a word boundary
+                let off = if uw > 64 && d.bool() {
+                    let b = if uw > 128 && d.bool() { 128 } else { 64 };
+                    let lo_min = (b + 1usize).saturating_sub(w);
+                    let lo_max = b.min(uw - w);
+                    if lo_min <= lo_max { lo_min + d.below_usize(lo_max - lo_min + 1) } else { d.below_usize(uw - w + 1) }
+                } else {
+                    d.below_usize(uw - w + 1)
+                };
                 Expr::Rd(sub_ref(&unit, off, w))
             } else {
                 Expr::Cat(vec![Expr::K(w - uw, d.below(4) as u64), Expr::Rd(unit)])
@@ -190,9 +199,9 @@ fn case_sel(cx: &mut Ctx, sw: usize) -> Expr {
 /// process (a late covering write)
 fn comb_chunk(d: &mut Draw, t: &Ref, cx: &mut Ctx, cls: &mut BTreeSet<String>, tail: &mut Vec<Stmt>) -> Vec<Stmt> {
     let w = t.width(cx.vars);
-    let loopable = w >= 2 && t.field.is_none() && !matches!(t.sel, Sel::Bit(_));
+    let loopable = w >= 2 && w <= 16 && t.field.is_none() && !matches!(t.sel, Sel::Bit(_));
     let k = d.weighted(&[
-        10, // plain
+        6,  // plain
         6,  // default then override
         6,  // if / else
         3,  // if without else
@@ -207,6 +216,7 @@ fn comb_chunk(d: &mut Draw, t: &Ref, cx: &mut Ctx, cls: &mut BTreeSet<String>, t
         1,  // incomplete, covered by a late write
         if cx.own.is_empty() { 0 } else { 2 }, // read in one arm, written in the other
         if cx.own.is_empty() || w < 2 { 0 } else { 1 }, // low bit written, all read, all written
+        if w >= 2 { 9 } else { 0 }, // defaults split over nesting levels, then a nested branch
     ]);
     match k {
         0 => {
@@ -458,6 +468,115 @@ fn comb_chunk(d: &mut Draw, t: &Ref, cx: &mut Ctx, cls: &mut BTreeSet<String>, t
             let last = asg(d, t, cx);
             vec![first, low_too, last]
         }
+        15 => {
+            // the defaults of `t` are split over two (three) nesting levels; a
+            // nested case / if without default is covered only by their union
+            cls.insert("nest:split-defaults".into());
+            let three = w >= 3 && d.chance(1, 4);
+            let ka = 1 + d.below_usize(if three { w - 2 } else { w - 1 });
+            let kb = if three { 1 + d.below_usize(w - ka - 1) } else { w - ka };
+            let a = sub_ref(t, 0, ka);
+            let mut b = sub_ref(t, ka, kb);
+            let c3 = if three { Some(sub_ref(t, ka + kb, w - ka - kb)) } else { None };
+            // boundary: the union misses one bit
+            let miss = d.chance(1, 4);
+            let mut drop_b_in_else = false;
+            if miss {
+                cls.insert("nest:union-misses-a-bit".into());
+                if kb >= 2 {
+                    b = sub_ref(t, ka, kb - 1);
+                } else {
+                    drop_b_in_else = true;
+                }
+            }
+            let in_loop = d.chance(1, 5);
+            let c1 = if in_loop { Expr::SL(0) } else { cond(d, cx) };
+            let top = asg(d, &a, cx);
+            let narrower_default = d.chance(1, 3);
+            // innermost statement: no default, or a default that writes less than `t`
+            let inner_case = |d: &mut Draw, cx: &mut Ctx| -> Stmt {
+                let s = case_sel(cx, 2);
+                let arm0 = asg(d, t, cx);
+                let arm1 = asg(d, t, cx);
+                let def = if narrower_default { Some(vec![asg(d, &a, cx)]) } else { None };
+                Stmt::Case {
+                    s,
+                    sw: 2,
+                    arms: vec![(vec![Pat::V(0)], vec![arm0]), (vec![Pat::V(1), Pat::V(2)], vec![arm1])],
+                    def,
+                }
+            };
+            let inner_if = |d: &mut Draw, cx: &mut Ctx| -> Stmt {
+                let c = cond(d, cx);
+                let x = asg(d, t, cx);
+                Stmt::If {
+                    c,
+                    t: vec![x],
+                    e: None,
+                }
+            };
+            let body: Stmt = if let Some(c3r) = c3 {
+                cls.insert("nest:three-levels".into());
+                let wb = asg(d, &b, cx);
+                let wc = asg(d, &c3r, cx);
+                let wc2 = asg(d, &c3r, cx);
+                let s = case_sel(cx, 2);
+                let innermost = if d.bool() { inner_if(d, cx) } else { inner_case(d, cx) };
+                let mut else_b = vec![];
+                if !drop_b_in_else {
+                    else_b.push(asg(d, &b, cx));
+                }
+                else_b.push(asg(d, &c3r, cx));
+                Stmt::If {
+                    c: c1,
+                    t: vec![
+                        wb,
+                        Stmt::Case {
+                            s,
+                            sw: 2,
+                            arms: vec![(vec![Pat::V(1)], vec![wc, innermost])],
+                            def: Some(vec![wc2]),
+                        },
+                    ],
+                    e: Some(else_b),
+                }
+            } else if d.bool() {
+                cls.insert("nest:if>case".into());
+                let wb = asg(d, &b, cx);
+                let inner = inner_case(d, cx);
+                let else_b = if drop_b_in_else { vec![] } else { vec![asg(d, &b, cx)] };
+                Stmt::If {
+                    c: c1,
+                    t: vec![wb, inner],
+                    e: Some(else_b),
+                }
+            } else {
+                cls.insert("nest:case>if".into());
+                let wb = asg(d, &b, cx);
+                let inner = if d.chance(1, 4) { inner_case(d, cx) } else { inner_if(d, cx) };
+                let def_b = if drop_b_in_else { vec![] } else { vec![asg(d, &b, cx)] };
+                let s = if in_loop { Expr::S(1, 0) } else { case_sel(cx, 2) };
+                Stmt::Case {
+                    s,
+                    sw: 2,
+                    arms: vec![(vec![Pat::V(0), Pat::V(3)], vec![wb, inner])],
+                    def: Some(def_b),
+                }
+            };
+            if in_loop {
+                cls.insert("nest:default-before-unrolled-for".into());
+                vec![
+                    top,
+                    Stmt::For {
+                        lo: 0,
+                        hi: 2,
+                        body: vec![body],
+                    },
+                ]
+            } else {
+                vec![top, body]
+            }
+        }
         _ => {
             cls.insert("comb:incomplete-then-late-cover".into());
             let c = cond(d, cx);
@@ -474,7 +593,7 @@ fn comb_chunk(d: &mut Draw, t: &Ref, cx: &mut Ctx, cls: &mut BTreeSet<String>, t
 
 fn ff_chunk(d: &mut Draw, t: &Ref, cx: &mut Ctx, cls: &mut BTreeSet<String>) -> Vec<Stmt> {
     let w = t.width(cx.vars);
-    let loopable = w >= 2 && t.field.is_none() && !matches!(t.sel, Sel::Bit(_));
+    let loopable = w >= 2 && w <= 16 && t.field.is_none() && !matches!(t.sel, Sel::Bit(_));
     match d.weighted(&[6, 4, 3, 2, if loopable { 2 } else { 0 }]) {
         0 => vec![asg(d, t, cx)],
         1 => {
@@ -557,10 +676,18 @@ pub fn generate(d: &mut Draw) -> GenOut {
     let mut cls: BTreeSet<String> = BTreeSet::new();
     // ---- variables --------------------------------------------------------
     let nvars = 2 + d.below_usize(4);
+    // one variable wider than a machine word in about a quarter of the designs
+    let wide_at = if d.chance(1, 4) { Some(d.below_usize(nvars)) } else { None };
     let mut vars: Vec<VarDecl> = vec![];
     for i in 0..nvars {
         let out = i == 0 || d.chance(1, 3);
-        let shape = if out { d.weighted(&[6, 2]) } else { d.weighted(&[6, 2, 2]) };
+        let shape = if wide_at == Some(i) {
+            3
+        } else if out {
+            d.weighted(&[6, 2])
+        } else {
+            d.weighted(&[6, 2, 2])
+        };
         let mut v = VarDecl {
             name: String::new(),
             out,
@@ -574,6 +701,11 @@ pub fn generate(d: &mut Draw) -> GenOut {
             0 => {
                 v.width = *d.pick(&[2usize, 1, 3, 4, 4, 6, 8]);
                 v.name = format!("{}{i}", if out { "o" } else { "x" });
+            }
+            3 => {
+                v.width = *d.pick(&[65usize, 64, 128, 129, 72, 100, 130, 192, 200, 96]);
+                v.name = format!("{}{i}", if out { "ow" } else { "w" });
+                cls.insert("wide:variable(64..200 bits)".into());
             }
             1 => {
                 v.array = true;
@@ -651,6 +783,104 @@ pub fn generate(d: &mut Draw) -> GenOut {
                     field: f,
                     sel: Sel::All,
                 };
+                if w > 64 {
+                    // segments placed around the 64 / 128 bit word boundaries
+                    let bounds: Vec<usize> = [64usize, 128].into_iter().filter(|b| *b < w).collect();
+                    let mut ranges: Vec<(usize, usize)> = vec![]; // (lo, hi)
+                    let shape = if bounds.is_empty() { 6 } else { d.weighted(&[5, 3, 3, 4, 3, 2, 1, 1]) };
+                    let bnd = if bounds.is_empty() { 0 } else { *d.pick(&bounds) };
+                    // a split point at, just below or just above the boundary
+                    let k = if bounds.is_empty() { 1 } else { (bnd + d.below_usize(3)).saturating_sub(1).clamp(1, w - 1) };
+                    match shape {
+                        0 => {
+                            cls.insert("wide:adjacent-at-word-boundary".into());
+                            ranges.push((0, k - 1));
+                            ranges.push((k, w - 1));
+                        }
+                        1 => {
+                            cls.insert("wide:one-bit-overlap-at-word-boundary".into());
+                            ranges.push((0, k));
+                            ranges.push((k, w - 1));
+                        }
+                        2 => {
+                            cls.insert("wide:one-bit-gap-at-word-boundary".into());
+                            ranges.push((0, k - 1));
+                            if k + 1 < w {
+                                ranges.push((k + 1, w - 1));
+                            }
+                        }
+                        3 => {
+                            // a part-select that crosses the boundary, plus the rest
+                            cls.insert("wide:select-crossing-word-boundary".into());
+                            let lo = bnd - 1 - d.below_usize(40.min(bnd - 1));
+                            let hi = (bnd + d.below_usize(40)).min(w - 1);
+                            let skew = d.weighted(&[4, 1, 1]); // exact / overlap below / gap below
+                            if lo >= 1 {
+                                let below_hi = match skew {
+                                    1 => lo,
+                                    2 => lo.saturating_sub(2),
+                                    _ => lo - 1,
+                                };
+                                ranges.push((0, below_hi.min(lo)));
+                            }
+                            ranges.push((lo, hi));
+                            if hi + 1 < w {
+                                ranges.push((hi + 1, w - 1));
+                            }
+                        }
+                        4 => {
+                            // single bits on both sides of the boundary
+                            cls.insert("wide:single-bits-at-word-boundary".into());
+                            if bnd >= 2 {
+                                ranges.push((0, bnd - 2));
+                            }
+                            ranges.push((bnd - 1, bnd - 1));
+                            ranges.push((bnd, bnd));
+                            if bnd + 1 < w {
+                                ranges.push((bnd + 1, w - 1));
+                            }
+                        }
+                        5 => {
+                            // selects wholly above the first word
+                            cls.insert("wide:selects-above-bit-64".into());
+                            ranges.push((0, 63));
+                            if w > 66 {
+                                let m = 65 + d.below_usize(w - 66);
+                                ranges.push((64, m - 1));
+                                let lo2 = match d.weighted(&[3, 1, 1]) {
+                                    1 => m - 1,
+                                    2 => m + 1,
+                                    _ => m,
+                                };
+                                if lo2 < w {
+                                    ranges.push((lo2, w - 1));
+                                }
+                            } else {
+                                ranges.push((64, w - 1));
+                            }
+                        }
+                        6 => {
+                            ranges.push((0, w - 1));
+                        }
+                        _ => {
+                            cls.insert("plan:whole-twice".into());
+                            ranges.push((0, w - 1));
+                            ranges.push((0, w - 1));
+                        }
+                    }
+                    boundary = true;
+                    let mut last: Option<usize> = None;
+                    for (lo, hi) in ranges {
+                        let o = if d.chance(4, 5) {
+                            pick_owner(d, &mut next_assign, last)
+                        } else {
+                            last.unwrap_or_else(|| pick_owner(d, &mut next_assign, None))
+                        };
+                        last = Some(o);
+                        segs.push((Tgt::One(sub_ref(&unit, lo, hi - lo + 1)), o));
+                    }
+                    continue;
+                }
                 let wide = w >= 2;
                 let plan = d.weighted(&[
                     10,
